@@ -160,6 +160,37 @@ func generate(rnd *rand.Rand, thorough bool) []*Prog {
 				}
 			}
 		}
+		// --- the complete catalogue of memory instructions on the boundary grid (catalogue.go)
+		if sc.pages == 1 || (thorough && sc.pages == 2) || (thorough && sc.pages == 65536) {
+			for _, op := range catNames {
+				oi := ops[op]
+				w := int64(oi.w)
+				l := int64(L)
+				for _, ea := range []int64{8, l - 2*w, l - w, l - w + 1, l - 1, l, l - w - 1} {
+					if ea < 0 || !u32ok(ea) {
+						continue
+					}
+					st := acc(op, "p", 0, 0, val())
+					st.V2 = val()
+					mk("cat", uint32(ea), 0, st)
+					if ea >= 16 {
+						st.Off = 16
+						mk("cat", uint32(ea-16), 0, st)
+					}
+					// the same access after a store that makes the bytes there non-zero and known (compare-exchange
+					// with a matching expected operand, read-modify-write on a non-trivial old value)
+					if a8 := ea &^ 7; a8+8 <= l && ea+w <= l {
+						pre := val()
+						st2 := acc(op, "p", 0, uint32(ea-a8), val())
+						st2.V2 = pre >> (8 * uint(ea&7)) & maskW(oi.w)
+						if rnd.Intn(4) == 0 {
+							st2.V2 ^= 1 << uint(rnd.Intn(8*oi.w)) // one bit off: must not store
+						}
+						mk("catseq", uint32(a8), 0, acc("i64.store", "p", 0, 0, pre), st2, acc("i64.load", "p", 0, 0, 0))
+					}
+				}
+			}
+		}
 		if sc.pages <= 2 && rnd.Intn(1) == 0 {
 			// a sample of singles on the Go-heap memory
 			for _, op := range []string{"l32", "s64", "l128", "s128"} {
